@@ -135,6 +135,46 @@ def check_body(rule, crate, body, label):
                                       site=s.where, expected="a table that the file-wide loop updates is read into the result only after that loop",
                                       found="%s, modified at %s" % (show(obj)[:60], ms.where),
                                       example="interface I {} contract C { address o; constructor(){o=msg.sender;} function f(address n) external {o=n;} }"))
+        if filewide:
+            # a map / set created before the file-wide loop that the loop both fills and consults (a memo table, a "seen" set): what one item finds in it was
+            # put there by the items before it
+            result = body.val_local(0)
+            filled, asked = {}, {}
+            for s in S.call_sites(body):
+                if s.bb not in lp.blocks or not s.args or not s.path.startswith("std::collections::"):
+                    continue
+                obj = O.root_object(s.args[0])
+                cb = O.creation_block(body, obj)
+                if cb is None or cb in lp.blocks or obj == result:
+                    continue
+                name = s.path.rsplit("::", 1)[-1]
+                if name in ("insert", "entry", "or_insert", "or_insert_with", "or_default", "extend", "push_back", "push_front"):
+                    filled.setdefault(obj, s)
+                if name in ("get", "contains", "contains_key", "entry", "get_mut", "get_or_insert_with", "remove", "take"):
+                    asked.setdefault(obj, s)
+            # the same through a helper: an object created before the file-wide loop and lent mutably (`&mut`) to a local function inside it can carry
+            # anything from one item to the next
+            for s in S.call_sites(body):
+                if s.bb not in lp.blocks or not s.local or not s.args:
+                    continue
+                for i_, op_ in enumerate(s.term["args"]):
+                    ty_ = (op_.get("p") or {}).get("ty") or ""
+                    if not ty_.startswith("&mut "):
+                        continue
+                    obj = O.root_object(s.args[i_])
+                    cb = O.creation_block(body, obj)
+                    if cb is None or cb in lp.blocks or obj == result:
+                        continue
+                    obs.append(Ob(rule + ".carried", body.path, "%s: an object created before the loop over the whole file is lent mutably to %s inside it" % (label, core.short_fn(s.path)), False,
+                                  site=s.where, expected="state that one top-level item leaves behind is not read while another is judged",
+                                  found="%s : %s" % (show(obj)[:50], ty_[:60]),
+                                  example="two contracts that both declare a modifier `auth`, only one of which checks msg.sender"))
+            for obj in filled:
+                if obj in asked:
+                    obs.append(Ob(rule + ".carried", body.path, "%s: a table created before the loop over the whole file is both filled and consulted inside it" % label, False,
+                                  site=asked[obj].where, expected="state that one top-level item leaves behind is not read while another is judged",
+                                  found="%s: filled at %s, consulted at %s" % (show(obj)[:50], filled[obj].where, asked[obj].where),
+                                  example="two contracts that both declare a modifier `auth`, only one of which checks msg.sender"))
         obs.append(Ob(rule + ".loop", body.path, "%s: loop over %s is %s" % (label, show(it)[:70], "file-wide, stateless" if filewide else "inside one item"),
                       True, site=where, nontrivial=filewide))
     # file-rooted searches inside per-item loops
